@@ -25,7 +25,7 @@ Definition shapeb (d : dnsrewrite) : bool :=
   && value_matches_type (dr_rrtype d) (dr_value d).
 
 Lemma last_byte_app_dot v : last_byte (v ++ $".") = Some "."%byte.
-Proof. unfold last_byte. rewrite rev_app_distr. reflexivity. Qed.
+Proof. unfold last_byte. rewrite rev'_eq, rev_app_distr. reflexivity. Qed.
 
 Lemma shape_rcode_only rc : shapeb (dr_rcode_only rc) = true.
 Proof. reflexivity. Qed.
